@@ -128,41 +128,62 @@ def _extent(chk: Check, sec, site) -> None:
         g = p.getter
         chk.saw(g)
         al = local_aliases(g.node)
-        ifs = [n for n in g.node.body if isinstance(n, ast.If)]
-        rets_none = [n for n in g.node.body if isinstance(n, ast.Return)
-                     and (n.value is None or (isinstance(n.value, ast.Constant) and n.value.value is None))]
-        ok = len(ifs) == 1 and len(ifs[0].body) == 1 and isinstance(ifs[0].body[0], ast.Return) \
-            and not ifs[0].orelse and len(rets_none) == 1
-        if not ok:
-            chk.ob("R06.3", key + ":shape", False, g.loc(),
-                   "%s must be 'if <index complete>: return <extent>; return None'" % key, 1)
-            continue
+        from ..summaries import Outside, Summary
+        tree = ("call", ("attr", ("attr", ("self",), site.attr), "get"), ())
+        len_tree = ("call", ("name", "len"), (tree,))
+        len_vals = ("call", ("name", "len"), (("attr", ("self",), site.values),))
         try:
-            cond = expr_term(ifs[0].test, g, {}, al)
-            val = expr_term(ifs[0].body[0].value, g, {}, al)
+            sm = Summary(g.node)
+            vd = sm.value_dnf()
+        except Outside as e:
+            chk.ob("R06.3", key + ":shape", False, g.loc(), "outside the fragment: %s" % e, 1)
+            continue
+        values = [k for k in vd if k != "None"]
+        if len(values) != 1 or "None" not in vd:
+            chk.ob("R06.3", key + ":shape", False, g.loc(),
+                   "%s must return the extent where the index is complete and None elsewhere; it "
+                   "returns %s" % (key, sorted(vd)), 1)
+            continue
+        vexpr = sm.value_expr(values[0])
+        conjs = vd[values[0]]
+        complete = nonempty = False
+        atoms = set()
+        shown = []
+        try:
+            val = expr_term(vexpr, g, {}, al)
+            if len(conjs) == 1:
+                for a_, op, b_ in sm.constraints(conjs[0]):
+                    ta = expr_term(a_, g, {}, al) if a_ is not None else None
+                    tb = expr_term(b_, g, {}, al) if b_ is not None else None
+                    shown.append("%s %s %s" % (unparse(a_) if a_ is not None else "", op,
+                                               unparse(b_) if b_ is not None else ""))
+                    atoms.add((repr(ta), op, repr(tb)))
+                    if op == "Eq" and {repr(ta), repr(tb)} == {repr(len_tree), repr(len_vals)}:
+                        complete = True
+                    zero, one = ("const", 0), ("const", 1)
+                    if (op == "Lt" and ta == zero and tb == len_tree) or \
+                            (op == "LtE" and ta == one and tb == len_tree) or \
+                            (op == "NotEq" and {repr(ta), repr(tb)} == {repr(zero), repr(len_tree)}) or \
+                            (op == "truthy" and ta == len_tree):
+                        nonempty = True
         except OutsideFragment as e:
             chk.ob("R06.3", key + ":shape", False, g.loc(), str(e), 1)
             continue
-        guards[pname] = _guard_atoms(ifs[0].test, al)
-        tree = ("call", ("attr", ("attr", ("self",), site.attr), "get"), ())
-        txt = repr(cond)
-        complete = repr(("call", ("name", "len"), (tree,))) in txt and \
-            repr(("call", ("name", "len"), (("attr", ("self",), site.values),))) in txt
-        nonempty = _requires_nonempty(ifs[0].test)
-        chk.ob("R06.3", key + ":guard", complete and nonempty, g.loc(ifs[0]),
+        guards[pname] = frozenset(atoms)
+        chk.ob("R06.3", key + ":guard", complete and nonempty and len(atoms) == 2, g.loc(),
                "%s must use the index only when it is non-empty and len(index) == "
-               "len(self.%s) (every interval addressed); the guard is %s"
-               % (key, site.values, unparse(ifs[0].test)), 3)
+               "len(self.%s) (every interval addressed); it returns the extent when %s"
+               % (key, site.values, " and ".join(shown) or "(%d alternatives)" % len(conjs)), 3)
         if pname == "address":
             want = ("call", ("attr", tree, "begin"), ())
             chk.ob("R06.3", key + ":value", val == want, g.loc(),
                    "Section.address must be the lowest interval address (index.begin()), got %s"
-                   % unparse(ifs[0].body[0].value), 2)
+                   % values[0], 2)
         else:
             want = ("binop", "Sub", ("call", ("attr", tree, "span"), ()), ("const", 1))
             chk.ob("R06.3", key + ":value", val == want, g.loc(),
                    "Section.size must be index.span() minus the closed-interval bias, got %s"
-                   % unparse(ifs[0].body[0].value), 2)
+                   % values[0], 2)
     if len(guards) == 2:
         chk.ob("R06.3", "Section.address~size:same-guard", guards["address"] == guards["size"],
                sec.loc(), "Section.address and Section.size decide 'extent known' under different "
